@@ -136,6 +136,22 @@ Example C08_ber_example :
   getb [48; 128; 2; 1; 1; 0]%N 6 = None /\ is_indef_term [48; 128; 2; 1; 1; 0]%N 5 = IErr.
 Proof. exact is_indef_term_needs_two. Qed.
 
+(* ---- detectMarker (model/parse.go: where an object's endobj / stream keyword is, in the 1 KiB read buffer) ---- *)
+
+(* With the look-ahead behind "xref" guarded (`j >= 0 && j+4 < len(line)`), detectMarker reads only inside the
+   buffer and its loop ends, for EVERY buffer content and both markers. *)
+Theorem detect_marker_in_bounds : forall is_endobj line,
+  match detect_marker true is_endobj line with DRes _ => True | _ => False end.
+Proof. exact detect_marker_safe. Qed.
+Print Assumptions detect_marker_in_bounds.
+
+(* The code without that guard (`if j >= 0 { r := rune(line[j+4])`) reads one past the end on "endobjstartxref". *)
+Theorem detect_marker_unguarded_refuted :
+  detect_marker false true [101;110;100;111;98;106;115;116;97;114;116;120;114;101;102]%N = DOOB
+  /\ detect_marker true true [101;110;100;111;98;106;115;116;97;114;116;120;114;101;102]%N = DRes (-1).
+Proof. exact detect_marker_unguarded_oob. Qed.
+Print Assumptions detect_marker_unguarded_refuted.
+
 (* ---- the object parser (ParseObjectContext / parseObjectContext / parseArray / parseDict) ---- *)
 
 (* For ALL byte strings, all limits and start levels, and whatever the token-level readers do: no call
